@@ -852,7 +852,11 @@ def parse_tree_to_objgraph(
 
         # enter recursive visit of attributes only, if the class of the
         # object being processed is a meta class of the current meta model
-        if model_obj.__class__.__name__ in metamodel:
+        # (a class of a grammar file that is imported only transitively is not
+        # visible by its simple name, its qualified name is)
+        if model_obj.__class__.__name__ in metamodel or (
+            hasattr(model_obj, "_tx_fqn") and model_obj._tx_fqn in metamodel
+        ):
             if hasattr(model_obj, "_tx_fqn"):
                 current_metaclass_of_obj = metamodel[model_obj._tx_fqn]
             else:
